@@ -3,9 +3,12 @@ package c03
 
 import (
 	"fmt"
+	"runtime"
 	"sort"
 	"strconv"
 	"strings"
+	"sync"
+	"sync/atomic"
 
 	"github.com/moov-io/ach"
 	"verif/harness/gen"
@@ -30,6 +33,81 @@ func run(t *T) {
 	bigPhase(t)
 	checkDigitSweep(t)
 	txCodeSweep(t)
+}
+
+// reporter is the part of *T the phases use; sink buffers it so that cases can
+// be evaluated on several goroutines and still be reported in index order.
+type reporter interface {
+	Fail(sig, what string, input any, observed, required string)
+	Case(key, class string, nontrivial bool)
+}
+
+type failRec struct {
+	sig, what     string
+	input         any
+	obs, required string
+}
+
+type caseRec struct {
+	key, class string
+	nontrivial bool
+	fails      []failRec
+}
+
+type sink struct {
+	recs    []caseRec
+	pending []failRec
+	perSig  map[string]int
+}
+
+func (s *sink) Fail(sig, what string, input any, observed, required string) {
+	s.pending = append(s.pending, failRec{sig, what, input, observed, required})
+}
+
+func (s *sink) Case(key, class string, nontrivial bool) {
+	s.recs = append(s.recs, caseRec{key, class, nontrivial, s.pending})
+	s.pending = nil
+}
+
+// wantInput says whether the (expensive) replay input of another failure with this signature is still needed.
+func (s *sink) wantInput(sig string) bool {
+	if s.perSig == nil {
+		s.perSig = map[string]int{}
+	}
+	s.perSig[sig]++
+	return s.perSig[sig] <= 3
+}
+
+// parallel evaluates fn(0..n-1) on all CPUs and reports the buffered results in index order.
+func parallel(t *T, n int, fn func(i int, s *sink)) {
+	sinks := make([]sink, n)
+	var wg sync.WaitGroup
+	next := int64(-1)
+	for w := 0; w < runtime.NumCPU(); w++ {
+		wg.Add(1)
+		go func() {
+			defer wg.Done()
+			for {
+				i := int(atomic.AddInt64(&next, 1))
+				if i >= n {
+					return
+				}
+				fn(i, &sinks[i])
+			}
+		}()
+	}
+	wg.Wait()
+	for i := range sinks {
+		for _, c := range sinks[i].recs {
+			for _, f := range c.fails {
+				t.Fail(f.sig, f.what, f.input, f.obs, f.required)
+			}
+			t.Case(c.key, c.class, c.nontrivial)
+		}
+		for _, f := range sinks[i].pending {
+			t.Fail(f.sig, f.what, f.input, f.obs, f.required)
+		}
+	}
 }
 
 func secsOf(f *ach.File) string {
@@ -60,13 +138,17 @@ func input(f *ach.File, perts []string) (out map[string]any) {
 }
 
 // validateAndCheck calls Validate and, on nil, reports every violated clause.  It returns whether the file was accepted.
-func validateAndCheck(t *T, f *ach.File, perts []string) (accepted bool, panicked bool) {
+func validateAndCheck(t reporter, f *ach.File, perts []string) (accepted bool, panicked bool) {
 	err := safely(f.Validate)
 	if err != nil {
 		return false, strings.HasPrefix(err.Error(), "panic:")
 	}
 	for _, fd := range checkFile(f) {
-		t.Fail(fd.sig, fd.what, input(f, perts), fd.observed, fd.required)
+		var in any = map[string]any{"perturbations": perts}
+		if s, ok := t.(*sink); !ok || s.wantInput(fd.sig) {
+			in = input(f, perts)
+		}
+		t.Fail(fd.sig, fd.what, in, fd.observed, fd.required)
 	}
 	return true, false
 }
@@ -84,11 +166,15 @@ func outcome(acc, pan bool) string {
 // ---- phase 1 ----------------------------------------------------------------
 
 func perturbPhase(t *T) {
-	n := t.Budget(6000)
+	n := t.Budget(50000)
 	all := gen.AllSECs()
 	cats := gen.AllCategories()
-	for i := 0; i < n; i++ {
-		r := t.R.Fork(uint64(i))
+	rs := make([]*gen.Rand, n)
+	for i := range rs {
+		rs[i] = t.R.Fork(uint64(i))
+	}
+	parallel(t, n, func(i int, t *sink) {
+		r := rs[i]
 		o := gen.Opts{MaxBatches: 3, MaxEntries: 4, Offset: i%5 == 0, PresetTraces: i%3 == 0, FullWidth: i%7 == 0}
 		switch i % 4 {
 		case 0: // one SEC at a time so that every SEC is perturbed often
@@ -102,7 +188,7 @@ func perturbPhase(t *T) {
 		f, err := gen.File(r, o)
 		if err != nil {
 			t.Fail("C03/generator", "generator failed", fmt.Sprint(o), err.Error(), "a valid file")
-			continue
+			return
 		}
 		secs := secsOf(f)
 		c := &ctx{r: r, f: f}
@@ -125,13 +211,13 @@ func perturbPhase(t *T) {
 			}
 		}
 		t.Case(secs+"|"+strings.Join(perts, ";")+"|"+outcome(acc, pan), class+":"+outcome(acc, pan), acc)
-	}
+	})
 }
 
 // ---- phase 2 ----------------------------------------------------------------
 
 func bigPhase(t *T) {
-	n := t.Budget(24)
+	n := t.Budget(69)
 	all := gen.AllSECs()
 	for i := 0; i < n; i++ {
 		r := t.R.Fork(uint64(1_000_000 + i))
@@ -149,24 +235,36 @@ func bigPhase(t *T) {
 		hashOverflow := false
 		createErr := ""
 		for bi := range c.vs {
+			src := c.vs[bi]
 			for k := 0; k < size; k++ {
-				e := c.appendEntry(bi, 0)
 				p := strconv.Itoa(r.Range(5, 9)) + randDigits(r, 7)
-				*e.rdfi, *e.check = p, strconv.Itoa(check371(p))
-				if e.trace != nil {
-					*e.trace = ""
+				cd := strconv.Itoa(check371(p))
+				a := *src.entries[0].amount
+				switch {
+				case a == 0:
+				case amt == "small":
+					a = r.Range(1, 1000)
+				case amt == "max":
+					a = 9_999_999_999
 				}
-				switch amt {
-				case "small":
-					if *e.amount != 0 {
-						*e.amount = r.Range(1, 1000)
-					}
-				case "max":
-					if *e.amount != 0 {
-						*e.amount = 9_999_999_999
-					}
+				switch src.kind {
+				case "std":
+					e := cloneStd(src.entries[0].std)
+					e.RDFIIdentification, e.CheckDigit, e.Amount, e.TraceNumber = p, cd, a, ""
+					f.Batches[src.idx].AddEntry(e)
+				case "ADV":
+					e := cloneADV(src.entries[0].adv)
+					e.RDFIIdentification, e.CheckDigit, e.Amount = p, cd, a
+					f.Batches[src.idx].AddADVEntry(e)
+				case "IAT":
+					e := cloneIAT(src.entries[0].iat)
+					e.RDFIIdentification, e.CheckDigit, e.Amount, e.TraceNumber = p, cd, a, ""
+					f.IATBatches[src.idx].AddEntry(e)
 				}
 			}
+		}
+		c.refresh()
+		for bi := range c.vs {
 			v := c.vs[bi]
 			sum := 0
 			for _, e := range v.entries {
@@ -362,12 +460,16 @@ func txCodeSweep(t *T) {
 	bases = append(bases, base{ach.PPD, []string{ach.CategoryDishonoredReturn}}, base{ach.COR, []string{gen.CategoryRefusedNOC}})
 	sccs := []int{ach.MixedDebitsAndCredits, ach.CreditsOnly, ach.DebitsOnly, ach.AutomatedAccountingAdvices}
 	placements := []string{"own", "credit", "debit", "neither", "both"}
-	for bi, b := range bases {
-		r := t.R.Fork(uint64(3_000_000 + bi))
+	rs := make([]*gen.Rand, len(bases))
+	for i := range rs {
+		rs[i] = t.R.Fork(uint64(3_000_000 + i))
+	}
+	parallel(t, len(bases), func(bi int, t *sink) {
+		b, r := bases[bi], rs[bi]
 		f, err := gen.File(r, gen.Opts{SECs: []string{b.sec}, Categories: b.cat, MinBatches: 1, MaxBatches: 1, MaxEntries: 2, MaxAddenda: 1})
 		if err != nil {
 			t.Fail("C03/generator", "generator failed", b.sec, err.Error(), "a valid file")
-			continue
+			return
 		}
 		cat := "Forward"
 		if len(b.cat) > 0 {
@@ -417,5 +519,5 @@ func txCodeSweep(t *T) {
 				}
 			}
 		}
-	}
+	})
 }
